@@ -93,7 +93,7 @@ def _run_variant(args):
 
 
 def run_selftest(prop: str, mod, base_ctx: Ctx, jobs: int = None, only: Optional[List[str]] = None) -> dict:
-    variants: List[V] = list(getattr(mod, "selftest")())
+    variants: List[V] = list(getattr(mod, "selftest")()) + regression_variants(prop)
     if only:
         variants = [v for v in variants if v.name in only]
     base_keys = _viol_keys(base_ctx)
@@ -124,6 +124,84 @@ def run_selftest(prop: str, mod, base_ctx: Ctx, jobs: int = None, only: Optional
     return out
 
 
+# --------------------------------------------------------------------------------- regression variants from patches
+def edits_from_patch(path: str, reverse: bool = True):
+    """Turn a unified diff into textual (file, old, new) edits, one per hunk. With reverse=True the edit goes from the
+    patched text back to the original (i.e. it re-introduces what the patch repaired)."""
+    edits = []
+    cur = None
+    a: list = []
+    b: list = []
+
+    def flush():
+        nonlocal a, b
+        if cur and (a or b):
+            old, new = ("".join(b), "".join(a)) if reverse else ("".join(a), "".join(b))
+            if old != new:
+                edits.append((cur, old, new))
+        a, b = [], []
+
+    with open(path, encoding="utf-8", errors="replace") as f:
+        lines = f.readlines()
+    in_hunk = False
+    for ln in lines:
+        if ln.startswith("diff --git"):
+            flush()
+            in_hunk = False
+            cur = None
+        elif ln.startswith("+++ "):
+            p = ln[4:].strip()
+            cur = p[2:] if p.startswith(("a/", "b/")) else p
+        elif ln.startswith("--- "):
+            continue
+        elif ln.startswith("@@"):
+            flush()
+            in_hunk = True
+        elif in_hunk:
+            if ln.startswith("-- ") and ln.strip() == "--":
+                in_hunk = False
+                continue
+            if ln.startswith("+"):
+                b.append(ln[1:])
+            elif ln.startswith("-"):
+                a.append(ln[1:])
+            elif ln.startswith(" "):
+                a.append(ln[1:])
+                b.append(ln[1:])
+            elif ln.startswith("\\"):
+                continue
+            else:
+                flush()
+                in_hunk = False
+    flush()
+    return edits
+
+
+def regression_variants(prop: str):
+    """One break variant per `fix:` commit mapped to this property (planned_fixes/*.patch reversed): the check must
+    report the repaired defect again if it ever returns."""
+    import glob
+    import json
+
+    root = os.path.dirname(os.path.dirname(os.path.abspath(__file__)))
+    with open(os.path.join(root, "known_findings.json")) as f:
+        fixed = [e for e in json.load(f)["entries"] if e.get("status") == "fixed" and e.get("property") == prop]
+    commits = sorted({e["commit"] for e in fixed})
+    with open(os.path.join(root, "planned_fixes", "COMMITS.json")) as f:
+        by_commit = json.load(f)
+    out = []
+    for c in commits:
+        pf = by_commit.get(c)
+        if not pf:
+            continue
+        eds = edits_from_patch(os.path.join(root, "planned_fixes", pf), reverse=True)
+        if not eds:
+            continue
+        first, rest = eds[0], tuple(eds[1:])
+        out.append(V(f"regression-{pf[:4]}-{c}", first[0], first[1], first[2], kind="break", more=rest))
+    return out
+
+
 if __name__ == "__main__":
     import warnings
 
@@ -137,3 +215,5 @@ if __name__ == "__main__":
     for d in r["detail"]:
         print(f"  {d['result']:5s} {d['kind']:5s} {d['variant']}: {d['by']}")
     print({k: v for k, v in r.items() if k not in ("detail",)})
+
+
